@@ -1,3 +1,18 @@
 ---- MODULE ReaderMC ----
 EXTENDS ReaderI
+\* --- liveness (C09r/C03: no call hangs).  Deadlock detection finds states in which nothing can move; a cycle in
+\* which the read-ahead and the decompressors keep exchanging blocks while the caller's Read or Seek never
+\* returns is not a deadlock.  Fairness is per goroutine - the caller, the read-ahead loop, each inflate
+\* goroutine - and says only that a goroutine that can take a step eventually takes one.
+ConsumerNext == \/ StartNext \/ StartTouch \/ (\E m \in 1..N : StartSeek(m))
+                \/ NGet \/ NHit \/ NMiss \/ NRecv \/ NWait \/ NKeep
+                \/ YUse \/ YPeek \/ YRead \/ YWait \/ YDrain
+                \/ SelWaiting("s") \/ SelWorking("s") \/ SelWWait("s") \/ SFound
+                \/ SGet \/ SHit \/ SHitCtl \/ SMiss \/ SInBlock
+                \/ StartClose \/ Closed
+ReadAheadNext == ATake \/ ACtl \/ APeek \/ ARead \/ ASend
+LiveSpec == Spec /\ WF_vars(ConsumerNext) /\ WF_vars(ReadAheadNext) /\ \A d \in Dec : WF_vars(Inflate(d))
+\* every call returns, and a caller that goes on (fairness makes it) ends with the reader closed
+AllCallsReturn == []<>(cpc \in {"idle", "closed", "panic"})
+ReaderEnds == <>[](cpc \in {"closed", "panic"})
 ====
